@@ -18,7 +18,6 @@ import re
 from vlib import core
 
 META = {
-    "claimed": False,
     "harness_bins": ["nkeval"],
     "extract": "C08.v",
     "technique": "Coq proof on a mechanism-shaped model of pending contracts (arrays = (elements, pending), fields with pending contracts, primitives building closures exactly as operation.rs): a step-indexed logical relation shows that every observer pipeline blames iff it reaches the violating component, is insensitive to unreached components and otherwise equals the unannotated run; the model is tied to nickel by differential runs of generated `observe (v | T)` programs (extracted model vs nkeval) with an independent reach-table oracle on the implementation",
@@ -90,7 +89,12 @@ def nk_lit(l):
         body = "[" + ", ".join(nk_atom(a) for a in l[1]) + "]"
     else:
         body = "{" + ", ".join("%s = %s" % (k[1], nk_atom(a)) for k, a in l[1]) + "}"
-    return body if l[2] == "none" else "(%s | %s)" % (body, nk_ctr(l[2]))
+    if l[2] == "none":
+        return body
+    return "(%s | %s)" % (body, "C" if _alias[0] is not None and l[2] == _alias[0] else nk_ctr(l[2]))
+
+
+_alias = [None]
 
 
 F2 = {"add": "a + b", "count": "a + 1", "fst": "a", "snd": "b"}
@@ -212,12 +216,31 @@ def nk_container(k):
     raise ValueError(k)
 
 
-def nk_program(k, T, o):
+def nk_program(k, T, o, entry="ann", alias=False, annotated=True):
+    """observe (k | T).  entry "ann": `let x = (k | T) in o x`; entry "dom": the container goes through
+    the domain of a function contract, `let f | T -> Dyn = fun x => o x in f k`.  With alias the
+    annotation is bound once (`let C = T in`) and shared by the literals that carry the same annotation
+    (physically equal contracts are the ones contract_eq equates)."""
     _ctr[0] = 0
+    _alias[0] = T if alias else None
     c = nk_container(k)
-    if T != "none":
-        c = "(%s | %s)" % (c, nk_ctr(T))
-    return "let x = %s in %s" % (c, nk_body(o, "x"))
+    pre = "let C = %s in " % nk_ctr(T) if alias else ""
+    tt = "C" if alias else nk_ctr(T)
+    try:
+        if entry == "dom":
+            f = "fun x => %s" % nk_body(o, "x")
+            if annotated:
+                return "%slet f | %s -> Dyn = %s in f %s" % (pre, tt, f, c)
+            return "%slet f = %s in f %s" % (pre, f, c)
+        if annotated and T != "none":
+            c = "(%s | %s)" % (c, tt)
+        return "%slet x = %s in %s" % (pre, c, nk_body(o, "x"))
+    finally:
+        _alias[0] = None
+
+
+def case_program(case, annotated=True):
+    return nk_program(case["k"], case["T"], case["o"], case.get("entry", "ann"), case.get("alias", False), annotated)
 
 
 # --------------------------------------------------------------------------------------------------
@@ -702,6 +725,7 @@ def step_from(rng, ty, shape):
 def gen_case(rng):
     """returns dict(k, T, o, pos, special) - pos/special None when nothing violates"""
     kind = rng.weighted([("arr", 40), ("arr2", 15), ("rec", 35), ("fun", 10)])
+    entry = "ann"
     special = rng.weighted([(BAD, 60), (FAIL, 25), (None, 15)])
     if kind == "arr":
         ln = rng.range(1, 4)
@@ -710,6 +734,8 @@ def gen_case(rng):
         if pos:
             xs[pos[0]] = special
         k, T, ty, shape = ("karr",) + tuple(xs), T_ARR, "arrn", {"len": ln}
+        if rng.chance(1, 6):
+            entry = "dom"
     elif kind == "arr2":
         nr, nc = rng.range(1, 3), rng.range(1, 3)
         rows = [[n(rng.range(0, 5)) for _ in range(nc)] for _ in range(nr)]
@@ -757,7 +783,21 @@ def gen_case(rng):
     o = obs[0]
     for nx in obs[1:]:
         o = ("comp", o, nx)
-    return {"k": k, "T": T, "o": o, "pos": pos, "special": special}
+    alias = True if entry == "dom" else rng.chance(1, 2)
+    if entry == "dom":
+        o = strip_ctr(o)
+    return {"k": k, "T": T, "o": o, "pos": pos, "special": special, "entry": entry, "alias": alias}
+
+
+def strip_ctr(o):
+    """in the function-domain entry the pipeline carries no foreign annotation (see the comment on
+    contract_eq in run()): re-annotations and non-shared literal annotations are dropped"""
+    if isinstance(o, tuple):
+        if o[0] == "ctr":
+            return "id"
+        if o[0] == "comp":
+            return ("comp", strip_ctr(o[1]), strip_ctr(o[2]))
+    return o
 
 
 def violates(case):
@@ -777,7 +817,8 @@ def violates(case):
 # running
 
 def model_line(case, T=None):
-    return "run\t%s\t%s\t%s" % (sx(case["T"] if T is None else T), sx(case["k"]), sx(case["o"]))
+    mode = "rundom" if case.get("entry", "ann") == "dom" else "run"
+    return "%s\t%s\t%s\t%s" % (mode, sx(case["T"] if T is None else T), sx(case["k"]), sx(case["o"]))
 
 
 def reach_line(case):
@@ -789,7 +830,7 @@ def esc(s_):
 
 
 def impl_line(case, annotated=True, flags="detail"):
-    return flags + "\t" + esc(nk_program(case["k"], case["T"] if annotated else "none", case["o"]))
+    return flags + "\t" + esc(case_program(case, annotated))
 
 
 def canon_impl(line):
@@ -831,6 +872,8 @@ def expected_error(case):
         return "ERR Fail"
     if case["k"][0] == "kfun" and case["pos"] == ("arg",):
         return "ERR Blame-"
+    if case.get("entry", "ann") == "dom":
+        return "ERR Blame-"          # the caller supplied the container
     return "ERR Blame+"
 
 
@@ -855,13 +898,14 @@ def run_cases(ck, cases, exe_model):
         key = sx(c["k"]) + "|" + sx(c["T"]) + "|" + sx(c["o"])
         ck.case(key=key, nontrivial=bool(viol))
         ck.hist("container", c["k"][0])
+        ck.hist("entry", c.get("entry", "ann") + ("+alias" if c.get("alias") else ""))
         ck.hist("annotation", c["T"][0] if isinstance(c["T"], tuple) else c["T"])
         ck.hist("special", "none" if c["special"] is None else ("fail" if c["special"] == FAIL else "bad"))
         ck.hist("impl_outcome", a.split(" ")[1] if a.startswith("ERR") else "Ok")
         ck.hist("py_reach", str(pr))
         for ob in flat_obs(c["o"]):
             ck.hist("observers", ob)
-        replay = {"case": c, "nickel": nk_program(c["k"], c["T"], c["o"]), "impl": a, "impl_unannotated": u,
+        replay = {"case": c, "nickel": case_program(c), "impl": a, "impl_unannotated": u,
                   "model": m, "py_reach": pr, "how_to_replay": "./verif check C08 --replay <this file>"}
         # ---- direct oracle on the implementation
         direct_bad = None
@@ -885,7 +929,12 @@ def run_cases(ck, cases, exe_model):
             if pr is not None and a != u:
                 direct_bad = "component not reached / nothing violates, but observe (v | T) = %s differs from observe v = %s" % (a, u)
         if direct_bad:
-            ck.violation("oracle:" + "+".join(sorted(set(flat_obs(c["o"])))) + ":" + c["k"][0], direct_bad, replay)
+            key = "oracle:" + "+".join(sorted(set(flat_obs(c["o"])))) + ":" + c["k"][0]
+            if (c.get("entry") == "dom" and viol and pr is True and c["special"] != FAIL and a == "ERR Blame+"
+                    and any(x in ("concatl", "concatr") for x in flat_obs(c["o"]))):
+                # the component is blamed, but with the label of the other operand of `@`
+                key = "concat-keeps-left-labels"
+            ck.violation(key, direct_bad, replay)
         # ---- model vs implementation
         if m == "ERR Unmodelled" or m.startswith("PARSE-ERROR") or m == "ERR ModelFuel":
             ck.count("model_unmodelled" if m == "ERR Unmodelled" else "model_internal")
@@ -927,7 +976,7 @@ def run(ck):
         cases.append(gen_case(rng.fork()))
     mod_out, imp_out, raw_out = run_cases(ck, cases, exe_model)
     for c, m, a in list(zip(cases, mod_out, imp_out))[:6]:
-        ck.sample({"nickel": nk_program(c["k"], c["T"], c["o"]), "model": m, "impl": canon_impl(a)})
+        ck.sample({"nickel": case_program(c), "model": m, "impl": canon_impl(a)})
     ck.coverage["corpus_cases"] = ncorpus
     ck.coverage["programs_evaluated_on_nickel"] = 2 * len(cases)
     ck.coverage["rule"] = ("case = container literal (array 1-4 / array of arrays / record 1-3 fields / function) with at most one "
